@@ -229,6 +229,66 @@ func runC24(c *core.Ctx) {
 				"every append is followed by the len==batchSize test, whose true edge flushes before the next receive",
 				"after an append the batch-size test (or the flush on its true edge) can be skipped before the next receive: a batch could exceed the batch size", nil)
 		}
+		// the batch timeout and the flush marker always flush what is pending
+		if flush != nil {
+			isFlushCall := func(x ssa.Instruction) bool {
+				call, ok := x.(*ssa.Call)
+				if !ok {
+					return false
+				}
+				switch v := call.Common().Value.(type) {
+				case *ssa.MakeClosure:
+					return v.Fn == ssa.Value(flush)
+				case *ssa.Function:
+					return v == flush
+				}
+				return an.Mentions(call.Common().Value, func(y ssa.Value) bool {
+					mc, ok := y.(*ssa.MakeClosure)
+					return ok && mc.Fn == ssa.Value(flush)
+				})
+			}
+			toSelect := func(x ssa.Instruction) bool { _, ok := x.(*ssa.Select); return ok }
+			var sel *ssa.Select
+			an.Instrs(run, func(in ssa.Instruction) {
+				if s, ok := in.(*ssa.Select); ok {
+					sel = s
+				}
+			})
+			okTimer, okMarker := false, false
+			if sel != nil {
+				for i, st := range sel.States {
+					if !an.LoadedField(st.Chan, "Timer", "C") {
+						continue
+					}
+					if b := selectCaseBlock(sel, i); b != nil {
+						h := an.Ungated(an.CutSpec{Fn: run, StartBlocks: []*ssa.BasicBlock{b}, GateInstr: isFlushCall, Sink: toSelect})
+						okTimer = len(h) == 0
+					}
+				}
+			}
+			// flush marker: the nil edge of the value received from batchCh
+			an.Instrs(run, func(in ssa.Instruction) {
+				ifi, ok := in.(*ssa.If)
+				if !ok {
+					return
+				}
+				bo, ok := ifi.Cond.(*ssa.BinOp)
+				if !ok || bo.Op != token.EQL || !an.IsNilConst(bo.Y) {
+					return
+				}
+				if ex, isEx := bo.X.(*ssa.Extract); !isEx || ex.Tuple != ssa.Value(sel) {
+					return
+				}
+				h := an.Ungated(an.CutSpec{Fn: run, StartBlocks: []*ssa.BasicBlock{in.Block().Succs[0]}, GateInstr: isFlushCall, Sink: toSelect})
+				okMarker = len(h) == 0
+			})
+			c.Result(okTimer, "C24.c", "DOM", "Queue.run:timeout-flushes", c.P.Pos(run.Pos()),
+				"when the batch timer fires, the pending requests are always flushed before the next receive",
+				"Queue.run can return to its select after the batch timer fired without flushing the pending requests (the timer is one-shot): requests below the batch size stay queued until enough further requests arrive — with no further traffic they are never applied", nil)
+			c.Result(okMarker, "C24.c", "DOM", "Queue.run:flush-marker-flushes", c.P.Pos(run.Pos()),
+				"a flush marker always flushes the pending requests before the next receive",
+				"Queue.run can ignore a flush marker: Flush() returns without the pending requests having been handed on", nil)
+		}
 	} else {
 		c.Unk("C24.c", "DOM", "Queue.run", "", "Queue.run not found")
 	}
